@@ -11,6 +11,7 @@ fn bits_eq(a: F, b: F) -> bool {
 // @ob props=C17 tier=quick kind=P cfg=core-std timeout=900
 // @fn step ; CubicBezier::eval ; CubicBezier::fast_eval
 // @clause at and beyond the ends both cubic evaluators return exactly the first control point (t <= 0) and the last (t >= 1), for all control points and all f32 t; no t (NaN, infinities included) makes them panic
+#[cfg(not(verif_skip_spline_bezier_endpoints_exact))]
 #[kani::proof]
 fn spline_bezier_endpoints_exact() {
     let p: [F; 4] = kani::any();
@@ -39,6 +40,7 @@ fn spline_bezier_endpoints_exact() {
 // @ob props=C17 tier=quick kind=P cfg=core-std timeout=1800
 // @fn smoothstep ; smootherstep ; step
 // @clause smoothstep and smootherstep return exactly 0 for t <= 0 and exactly 1 for t >= 1, and a value in [0, 1] (up to one rounding above 1) for every t in between; never NaN for non-NaN input
+#[cfg(not(verif_skip_spline_smoothstep_range))]
 #[kani::proof]
 fn spline_smoothstep_range() {
     let t: F = kani::any();
@@ -58,6 +60,7 @@ fn spline_smoothstep_range() {
 // @ob props=C17 tier=quick kind=P cfg=core-std timeout=1800
 // @fn CubicBezier::tangent
 // @clause the tangent is clamped: for t <= 0 it equals the tangent at 0, which is exactly 3(p1 - p0), and for t >= 1 it equals the tangent at 1; no t makes it panic
+#[cfg(not(verif_skip_spline_tangent_clamps))]
 #[kani::proof]
 fn spline_tangent_clamps() {
     let p: [F; 4] = kani::any();
@@ -86,6 +89,7 @@ const MAXPTS: usize = 25;
 // @fn BezierSpline::segment ; BezierSpline::eval ; BezierSpline::tangent
 // @bound segment counts 1..8 (3n+1 control points, n <= 8); complete in t (all f32, NaN and infinities included)
 // @clause segment selection never indexes out of bounds for any t; for t in [0,1] the selected segment k satisfies k <= t*n <= k+1 (within rounding) and the local parameter lies in [-1e-3, 1+1e-3]; at a join t = k/n the spline passes through control point 3k; eval returns the first/last control point at and beyond the ends
+#[cfg(not(verif_skip_spline_segment_selection))]
 #[kani::proof]
 #[kani::unwind(27)]
 fn spline_segment_selection() {
@@ -124,6 +128,7 @@ fn spline_segment_selection() {
 // @bound control point counts 0..25
 // @allow_panic BezierSpline::<.*>::new
 // @clause the spline constructor rejects every control point count that is not 3n+1 with n >= 1: whenever it returns, the count has that form and the points are stored in order
+#[cfg(not(verif_skip_spline_new_rejects_bad_lengths))]
 #[kani::proof]
 #[kani::unwind(27)]
 fn spline_new_rejects_bad_lengths() {
@@ -141,6 +146,7 @@ fn spline_new_rejects_bad_lengths() {
 // @fn BezierSpline::new
 // @bound segment counts 1..8
 // @clause the spline constructor accepts every control point count 3n+1 with n >= 1
+#[cfg(not(verif_skip_spline_new_accepts_good_lengths))]
 #[kani::proof]
 #[kani::unwind(27)]
 fn spline_new_accepts_good_lengths() {
@@ -156,6 +162,7 @@ fn spline_new_accepts_good_lengths() {
 // @fn BezierSpline::approximate ; BezierSpline::do_approx
 // @bound 1 or 2 segments; the caller's criterion accepts immediately (no subdivision)
 // @clause the polyline approximation starts exactly at the first control point and ends exactly at the last
+#[cfg(not(verif_skip_spline_approximate_endpoints))]
 #[kani::proof]
 #[kani::unwind(12)]
 fn spline_approximate_endpoints() {
